@@ -492,9 +492,9 @@ fn run(opts: &Opts, acc: &mut Acc) {
     });
     acc.mark_exhaustive("grid", "index ranges, duplicate-key entry sequences, in/+/size over one value of every type");
     let n = match (opts.tier, opts.is_dbg()) {
-        (crate::engine::Tier::Quick, _) => 20_000,
-        (_, false) => 600_000,
-        (_, true) => 60_000,
+        (crate::engine::Tier::Quick, _) => 400_000,
+        (_, false) => 3_000_000,
+        (_, true) => 300_000,
     };
     random_genomes(acc, opts, "random", n, 300, |gn, a| {
         let mut g = G::new(gn);
